@@ -24,12 +24,15 @@ ASSUMPTIONS = ["image atoms are identified by (charge tag, lattice offset); atom
 @st.composite
 def case(draw, tier="quick"):
     spec = draw(gen_atoms.typed_structure(min_atoms=1, max_atoms=6, max_terms=4, coords=draw(st.sampled_from(["in-cell", "anywhere"]))))
+    if draw(st.integers(0, 11)) == 0:
+        spec = gen_atoms.inflate(spec, 140 // len(spec["pos"]) + 1)         # > 127 atoms before, > 255 after replication
     ck = draw(st.sampled_from(["as-is", "as-is", "rotated"]))
     if ck == "rotated":
         R = np.asarray(draw(gen_geom.random_rotation()))
         spec["cell"] = (np.array(spec["cell"]) @ R.T).tolist()
         spec["pos"] = (np.array(spec["pos"]).reshape(-1, 3) @ R.T).tolist()
-    r = draw(st.sampled_from([[1, 1, 1], [2, 1, 1], [1, 2, 1], [1, 1, 2], [2, 1, 3], [1, 3, 2], [3, 2, 1], [2, 2, 2], [2, 3, 1],
+    big = len(spec["pos"]) > 60
+    r = draw(st.sampled_from([[2, 1, 1], [1, 2, 1], [1, 1, 2]])) if big else draw(st.sampled_from([[1, 1, 1], [2, 1, 1], [1, 2, 1], [1, 1, 2], [2, 1, 3], [1, 3, 2], [3, 2, 1], [2, 2, 2], [2, 3, 1],
                               [1, 2, 2], [3, 1, 1], [1, 1, 3], [2, 2, 1]]))
     c = {"spec": spec, "r": r, "cell_kind": ck, "rtype": draw(st.sampled_from(["tuple", "list", "array"]))}
     if draw(st.integers(0, 3)) == 0:
@@ -200,7 +203,7 @@ def oracle(c, stats):
 @st.composite
 def thorough_case(draw):
     c = draw(case())
-    c["all_factors"] = draw(st.integers(0, 9)) == 0
+    c["all_factors"] = draw(st.integers(0, 9)) == 0 and len(c["spec"]["pos"]) <= 12
     return c
 
 
